@@ -133,7 +133,15 @@ def atoms_for(spec, kind):
         # delete_function-style removal of every function
         for f in sorted({b.get("f") for s_ in spec["sections"] for b in s_["blocks"] if b.get("f")}):
             pass
+    if kind == "all":
+        # inserted functions (their patch callbacks are fault points too)
+        out.append({"op": "newfunc", "name": "nf1", "p": [["p", 0], ["ret"]]})
+        out.append({"op": "newfunc", "name": "nf2", "p": [["p", 0], ["jcc", ".Lq"], ["p", 0], ["lab", ".Lq"], ["call", "A"], ["ret"]]})
     return out
+
+
+def _model_mods(mods):
+    return [m for m in mods if m["op"] != "newfunc"]
 
 
 def run_once(spec, mods, fault=None):
@@ -173,8 +181,8 @@ def run_once(spec, mods, fault=None):
             from ..world.run import label_roles
 
             try:
-                E, expect = Lg.expected(spec, mods)
-                E.label_roles = label_roles(spec, mods)
+                E, expect = Lg.expected(spec, _model_mods(mods))
+                E.label_roles = label_roles(spec, _model_mods(mods))
             except ValueError:  # raw patch text has no reference expansion: model it by an ordinary patch
                 m2 = [dict(m_, p=[["p", 1]]) if m_["op"] in ("ins", "rep") and isinstance(m_.get("p"), list) and any(t[0] == "raw" for t in m_["p"]) else m_ for m_ in mods]
                 E, expect = Lg.expected(spec, m2)
@@ -184,7 +192,7 @@ def run_once(spec, mods, fault=None):
             elif branch_into_data(E) and type(exc).__name__ == "UnsupportedAssemblyError":
                 outcome = "refused-branch-into-data"
             else:
-                diffs.append(exc_diff(spec, mods, exc))
+                diffs.append(exc_diff(spec, _model_mods(mods), exc))
                 outcome = "raised"
         else:
             outcome = "ok"
@@ -227,7 +235,7 @@ def run_once(spec, mods, fault=None):
 
 
 def n_callbacks(mods):
-    return [i for i, m in enumerate(mods) if m["op"] in ("ins", "rep") and isinstance(m["p"], list)]
+    return [i for i, m in enumerate(mods) if m["op"] in ("ins", "rep", "newfunc") and isinstance(m["p"], list)]
 
 
 def tasks(tier):
